@@ -197,6 +197,8 @@ def run(ctx):
             layout = rng.choice((("site", 1), ("site", 3), ("grid", 2, 3), ("grid", 3, 2), ("grid", 1, 2), ("grid", 2, 1)))
             nt, nf, nd = rng.choice((1, 2, 3)), rng.choice((2, 3)), rng.choice((2, 4))
             ds = make_dataset(rng, layout, nt, nf, nd, ("data", "data", "zero", "nan", "span"), unsorted_dirs=(k % 3 == 0), time_step=rng.choice((30, 3600)))
+            if k % 3 == 1 and ds.sizes["time"] > 1:
+                ds = ds.isel(time=list(range(ds.sizes["time"]))[::-1][:1] + list(range(ds.sizes["time"] - 1)))     # records not in chronological order
             ntime = rng.choice((None, 1, 2))
             gz = k % 4 == 1
             path = os.path.join(tmp, "w%d.spec%s" % (k, ".gz" if gz else ""))
@@ -220,9 +222,19 @@ def run(ctx):
             index[k] = (layout, ntime, gz)
             try:
                 back = read_swan(path)
-                probs = compare(ctx, "swan", ds, back, {}, lambda ov: np.maximum(np.max(ov, axis=(-2, -1), keepdims=True) / 9998.0 / 2 * 1.0001, 1e-12))
+                # the readers return the records sorted by time (C13): the pair is compared by time label
+                probs = compare(ctx, "swan", ds.sortby("time"), back, {}, lambda ov: np.maximum(np.max(ov, axis=(-2, -1), keepdims=True) / 9998.0 / 2 * 1.0001, 1e-12))
             except Exception as ex:  # noqa
                 probs = [("raised-" + type(ex).__name__, "read_swan raised %s: %s" % (type(ex).__name__, str(ex)[:150]))]
+            # the multi-file reader on the same file (station layouts): the same labelled contents
+            if layout[0] == "site" and not probs:
+                try:
+                    from wavespectra.input.swan import read_swans
+                    back2 = read_swans([path], int_freq=False, int_dir=False)
+                    p2 = compare(ctx, "swan", ds.sortby("time"), back2, {}, lambda ov: np.maximum(np.max(ov, axis=(-2, -1), keepdims=True) / 9998.0 / 2 * 1.0001, 1e-12))
+                    probs += [("read_swans-" + c_, "read_swans: " + m_) for c_, m_ in p2]
+                except Exception as ex:  # noqa
+                    probs.append(("read_swans-raised-" + type(ex).__name__, "read_swans raised %s: %s" % (type(ex).__name__, str(ex)[:150])))
             for clause, msg in probs:
                 ctx.violation({"format": "swan", "clause": clause, "layout": layout[0], "both_axes_gt1": layout[0] == "grid" and layout[1] > 1 and layout[2] > 1,
                                "ntime": "chunked" if ntime else "all"},
